@@ -51,7 +51,7 @@ class StreamGen:
             'axiom': rng.choice([1, 2, 4]), 'pattern': rng.choice([1, 2]), 'inst': rng.choice([2, 4, 6]),
             'mp': rng.choice([2, 4, 6]), 'gen': rng.choice([0, 1, 3]), 'subst': rng.choice([0, 1, 3]),
             'save': rng.choice([1, 2]), 'load': rng.choice([1, 2]), 'pop': rng.choice([0, 1]),
-            'publish': rng.choice([0, 1, 2]), 'junk': rng.choice([0, 0, 1]), 'capture': rng.choice([0, 1, 2]), 'muprobe': rng.choice([0, 1, 2]), 'freshprobe': rng.choice([0, 1, 2]),
+            'publish': rng.choice([0, 1, 2]), 'junk': rng.choice([0, 0, 1]), 'capture': rng.choice([0, 1, 2]), 'muprobe': rng.choice([0, 1, 2]), 'freshprobe': rng.choice([0, 1, 2]), 'quantprobe': rng.choice([0, 1, 2]),
         }
         self.p_bad = rng.choice([0.0, 0.05, 0.15])    # adversarial (inapplicable) choices
 
@@ -275,21 +275,50 @@ class StreamGen:
             self.put(bytes([OP['Save']]))
 
     def op_mu_probe(self):
-        """mu X . body with bodies on both sides of the documented positivity judgement."""
+        """mu X . body with bodies on both sides of the documented positivity judgement: crosses the
+        positive/negative arms of MetaVar, Implies, Mu (shadowing), ESubst and SSubst (all four
+        combinations of the inner metavariable's polarity in the substituted variable and the plug's
+        polarity in the bound one)."""
         rng, k = self.rng, self.k
         X = rng.choice(k.svars)
-        Y = rng.choice(k.svars)
+        Y = rng.choice([s for s in k.svars if s != X] or [(X + 1) % 250])
         x = rng.choice(k.evars)
-        mvp = T.mv(0, pos=(X,)); mvn = T.mv(0, neg=(X,)); mvf = T.mv(0, sf=(X,)); mvu = T.mv(0)
-        plugs = [T.svar(X), T.neg(T.svar(X)), T.sym(0), T.evar(x), T.mv(1, pos=(X,)), T.mv(1, neg=(X,)), T.mv(1, sf=(X,))]
-        base = rng.choice([mvp, mvn, mvf, mvu])
-        cand = [base, T.esub(base, x, rng.choice(plugs)), T.ssub(base, Y, rng.choice(plugs)), T.ssub(T.mv(0, pos=(X, Y)), Y, rng.choice(plugs)),
-                T.ssub(T.mv(0, pos=(X,), neg=(Y,)), Y, rng.choice(plugs)), T.neg(base), T.imp(base, T.svar(X)), T.neg(T.neg(T.svar(X))), T.app(T.svar(X), base)]
-        body = rng.choice(cand)
+
+        def lists():
+            return tuple(v for v in (X, Y) if rng.random() < 0.5)
+        phi = T.mv(0, sf=lists() if rng.random() < 0.3 else (), pos=lists(), neg=lists())
+        plugs = [T.svar(X), T.neg(T.svar(X)), T.svar(Y), T.sym(0), T.evar(x), T.mv(1, pos=(X,)), T.mv(1, neg=(X,)), T.mv(1, sf=(X,)), T.imp(T.svar(X), T.svar(Y))]
+        plug = rng.choice(plugs)
+        core = rng.choice([phi, T.esub(phi, x, plug), T.ssub(phi, Y, plug), T.ssub(phi, X, plug), T.ssub(T.ssub(phi, Y, plug), X, rng.choice(plugs)), T.mu(Y, T.app(T.svar(Y), phi))])
+        if core[0] in ('es', 'ss') and not T.wf_construct(core) and rng.random() < 0.8:
+            core = phi
+        body = rng.choice([core, T.neg(core), T.neg(T.neg(core)), T.imp(core, T.svar(X)), T.imp(T.svar(X), core), T.app(T.svar(X), core), T.imp(T.neg(core), T.svar(Y))])
         self.put_pattern(body)
         self.put(bytes([OP['Mu'], X]))
-        if rng.random() < 0.5 and not self.dead:
+        if self.dead:
+            return
+        r = rng.random()
+        if r < 0.4:
             self.put(bytes([OP['Pop']]))
+        elif r < 0.8:
+            # make the freshly accepted mu pattern part of a theorem: prop1[phi0 := mu X. body]
+            self.put(bytes([OP['Prop1'], OP['Instantiate'], 1, 0]))
+
+    def op_quantifier_probe(self):
+        """Quantifier instantiated with plugs that bind / shadow / mention x0 and x1 (the variables the
+        axiom's own pending substitution talks about)."""
+        rng = self.rng
+        x0, x1 = T.evar(0), T.evar(1)
+        fam = [T.ex(0, x0), T.neg(T.ex(0, x0)), T.ex(0, T.app(x0, x1)), T.ex(1, x0), T.ex(1, x1), T.ex(1, T.app(x0, x1)), x0, x1, T.app(x0, x1), T.imp(x0, T.ex(0, x0)),
+               T.mu(0, T.app(T.svar(0), x0)), T.ex(0, T.ex(1, T.app(x0, x1))), T.ex(2, x0), T.mv(1, ef=(0,)), T.mv(1, ef=(1,)), T.mv(1), T.esub(T.mv(1), 0, T.sym(0)), T.esub(T.mv(1), 1, x0),
+               T.app(T.ex(0, x0), x0)]
+        p = rng.choice(fam)
+        if not T.wf_deep(p):
+            return
+        self.put_pattern(p)
+        self.put(bytes([OP['Quantifier'], OP['Instantiate'], 1, 0]))
+        if not self.dead and rng.random() < 0.6 and len(self.m.memory) < 250:
+            self.put(bytes([OP['Save']]))
 
     def proof_ops(self):
         rng = self.rng
@@ -339,6 +368,8 @@ class StreamGen:
                 self.op_mu_probe()
             elif op == 'freshprobe':
                 self.op_fresh_probe()
+            elif op == 'quantprobe':
+                self.op_quantifier_probe()
             elif op == 'junk':
                 self.put(bytes([rng.choice([0, 1, 16, 17, 18, 20, 23, 25, 31, 99, 136, 138, 255])]))
             if not self.dead and self.m.stack and self.m.stack[-1][0] == 'T':
